@@ -6,7 +6,8 @@ Verified as a client lemma on a concrete dependency DAG with symbolic values (st
     P1, P2, P3, P4   primitive distributions (value stored in the encoding)
     D  = f(P1, P2)   deterministic node (recomputed from its dependencies when decoding)
     M  = mux(index = P3 in {0, 1}; options = (P1, P4))   stores only index and the chosen branch
-    objects to encode: (D, M, P2, D)  -- shared and repeated nodes
+    C  conditioned to Cc = g(P4) (its own dependency list differs from the conditioned one)
+    objects to encode: (C, D, M, P2, D)  -- shared and repeated nodes
 
 The value codec is abstract here: writeValue appends a token, readValue consumes the next token (its
 byte-level round trip is the subject of serialization.py).  All Serializer / Samplable / Distribution /
@@ -28,6 +29,14 @@ detf = z3.Function("det_value", z3.IntSort(), z3.IntSort(), z3.IntSort())
 
 
 def register(reg):
+    def num(I, x):
+        """operand of a deterministic node: a decoded number (anything else means the dependency was not decoded)"""
+        from pyvc.values import is_scalar
+
+        if not is_scalar(x):
+            I.raise_("TypeError", "dependency has no decoded value")
+        return tonum(x)
+
     def node(cls, tag, deterministic, deps, **extra):
         o = PObj(repo_class(f"{D}:{cls}"), tag=tag)
         o.fields.update(_deterministic=deterministic, _dependencies=tuple(deps), _needsSampling=True, _isLazy=True, _valueType=("type", tag))
@@ -40,7 +49,7 @@ def register(reg):
         P = [node("Distribution", f"P{k}", False, ()) for k in range(1, 5)]
         P1, P2, P3, P4 = P
         Dn = node("Distribution", "D", True, (P1, P2))
-        Dn.fields["sampleGiven"] = BuiltinFn("sampleGiven", lambda value, Dn=Dn: SV(detf(tonum(I.bm.get_item(I, value, P1)), tonum(I.bm.get_item(I, value, P2)))))
+        Dn.fields["sampleGiven"] = BuiltinFn("sampleGiven", lambda value, Dn=Dn: SV(detf(num(I, I.bm.get_item(I, value, P1)), num(I, I.bm.get_item(I, value, P2)))))
         M = node("MultiplexerDistribution", "M", True, (P3, P1, P4), index=P3, options=(P1, P4))
         v = {p.tag: eng.fresh_int(p.tag + ".value") for p in P}
         eng.assume(sv_and(compare(">=", v["P3"], 0), compare("<=", v["P3"], 1)))  # the selector's range
@@ -51,7 +60,16 @@ def register(reg):
         # M's sampled value is the value of the chosen option
         mval = v["P1"] if eng.branch(tobool(compare("==", v["P3"], 0))) else v["P4"]
         values.fields["storage"].set(IdToken(M), mval)
-        objects = (Dn, M, P2, Dn)
+        # a node conditioned (by pruning / conditionOn) to an equivalent node with OTHER dependencies:
+        # encoding and decoding must both follow the conditioned version
+        C2 = node("Distribution", "Cc", True, (P4,))
+        C2.fields["sampleGiven"] = BuiltinFn("sampleGiven", lambda value: SV(detf(num(I, I.bm.get_item(I, value, P4)), z3.IntVal(7))))
+        Cn = node("Distribution", "C", True, (P2,))
+        Cn.fields["_conditioned"] = C2
+        Cn.fields["sampleGiven"] = BuiltinFn("sampleGiven", lambda value: I.raise_("AssertionError", "unconditioned node sampled"))
+        cval = SV(detf(tonum(v["P4"]), z3.IntVal(7)))
+        values.fields["storage"].set(IdToken(Cn), cval)
+        objects = (Cn, Dn, M, P2, Dn)
         tokens = []
 
         def mk_serializer(tag):
@@ -76,7 +94,7 @@ def register(reg):
         writer = mk_serializer("writer")
         wr = I.find_method(writer.cls, "writeSample")
         I.run_function(wr, [writer, objects, values], {}, env.vars["_contract"].inline_view())
-        env.vars.update(self=mk_serializer("reader"), objects=objects, _values=values, _tokens=tokens, _mism=mism, _nodes=dict(P1=P1, P2=P2, P3=P3, P4=P4, D=Dn, M=M), _v=v, _dval=dval, _mval=mval, _ntokens=len(tokens))
+        env.vars.update(self=mk_serializer("reader"), objects=objects, _values=values, _tokens=tokens, _mism=mism, _nodes=dict(P1=P1, P2=P2, P3=P3, P4=P4, D=Dn, M=M, C=Cn), _cval=cval, _v=v, _dval=dval, _mval=mval, _ntokens=len(tokens))
 
     def post(I, env, outcome):
         eng = I.eng
@@ -89,6 +107,7 @@ def register(reg):
         eng.check(f"{name}#ensures.each_token_read_with_the_type_it_was_written_with", not any(env.vars["_mism"]))
         get = lambda n: I.bm.get_item(I, res, n)
         eng.check(f"{name}#ensures.deterministic_node_recomputed_from_decoded_dependencies", compare("==", get(nodes["D"]), env.vars["_dval"]))
+        eng.check(f"{name}#ensures.conditioned_node_decoded_through_its_conditioned_version", compare("==", get(nodes["C"]), env.vars["_cval"]))
         eng.check(f"{name}#ensures.multiplexer_value_is_the_chosen_branch", compare("==", get(nodes["M"]), env.vars["_mval"]))
         eng.check(f"{name}#ensures.primitive_P2_restored", compare("==", get(nodes["P2"]), v["P2"]))
         eng.check(f"{name}#ensures.selector_restored", compare("==", get(nodes["P3"]), v["P3"]))
@@ -125,12 +144,20 @@ def replay_roundtrip(inputs, clause):
     from scenic.core import serialization as S
 
     progs = [
+        "param q = Range(0, 10) + 3\nego = new Object with foo Range(0, 1) + globalParameters.q\n",
         "x = Range(0, 1)\nego = new Object with foo Uniform(x, 3 * x, 7), with bar x + Range(1, 2)\nother = new Object at (10, 10), with foo (x, ego.foo)\nparam p = Uniform('a', 'b', x)\n",
         "k = DiscreteRange(0, 5)\nego = new Object with foo Options({k: 1, k + 10: 2, 100: 3}), with bar k\n",
         "v = Uniform((1, 2), (3, 4), (5, 6))\nego = new Object at v, with foo Normal(0, 1), with bar Uniform(v, (7, 8))\n",
     ]
+    variants = []
     for src in progs:
+        variants.append((src, None))
+    variants.append((progs[0], {"q": 8.25}))  # a scenario conditioned after compilation (Scenario.conditionOn)
+    for src, cond in variants:
         sc = scenic.scenarioFromString(src, mode2D=True)
+        if cond is not None:
+            sc.conditionOn(params=cond)
+            src = src + f" conditioned on params={cond}"
         for seed in range(6):
             random.seed(seed)
             scene, _ = sc.generate(maxIterations=200)
